@@ -97,7 +97,7 @@ FN('do_write_headers', props=['C02', 'C01', 'C16'],
    rewrites=[
        ('N11', 'for h in headers {', 'let mut headers = headers; loop { let h = match headers.next() { Some(h) => h, None => break };'),
        ('N4', 'write!(w, "{}: ", h.0)?;', 'w.fmt_name_colon(h.0)?;'),
-       ('N4', 'write!(w, "\\r\\n")?;', 'w.fmt_crlf()?;', 2),
+       ('N4', 'write!(w, "\\r\\n")?;', 'w.fmt_crlf()?;', '*'),
        ('N5', 'w.try_write(|w| {', '''w.try_write(|w: &mut Writer| -> (r: io::Result<()>)
             requires old(w).wf(), old(w).out() == s_out, old(w).cap() == s_cap, old(w).fin() == s_fin
             ensures final(w).wf(), final(w).cap() == s_cap, final(w).fin() == s_fin, s_out.is_prefix_of(final(w).out()),
@@ -630,6 +630,24 @@ pub open spec fn partial_redirect_hack(p: Parsed) -> bool {
     &&& p.version is Some && p.version->Some_0 <= 1 && p.code is Some && 300 <= p.code->Some_0 <= 399
     &&& build_fields(p.fields, nonempty_prefix(p.fields, p.fields.len() as int)) matches Ok(hs) && by_name(hs, lit("location")).len() > 0
 }
+/// C05: postconditions of Call::try_response as predicates (hypotheses of head_lemmas::lemma_c05_*)
+pub open spec fn c05_complete(m: Method, input: Seq<u8>, r: Result<Option<(usize, Response<()>)>, Error>) -> bool {
+    parse_response(input, MAX_RESPONSE_HEADERS as nat) matches Outcome::Complete(n, p) ==> ({
+        let valid = p.version is Some && p.version->Some_0 <= 1 && p.code is Some && 100 <= p.code->Some_0 <= 999 && build_fields(p.fields, p.fields.len() as int) is Ok;
+        let hs = build_fields(p.fields, p.fields.len() as int)->Ok_0;
+        &&& (r is Ok ==> valid && r->Ok_0 is Some && r->Ok_0->Some_0.0 == n && response_is(r->Ok_0->Some_0.1, p, hs))
+        &&& (valid && p.code->Some_0 == 100 ==> (r is Ok <==> hs.len() == 0))
+        &&& (valid && p.code->Some_0 != 100 ==> (r is Ok <==> framing(m, p.code->Some_0, p.version->Some_0 == 0,
+                    text_first(hs, lit("content-length")), text_first(hs, lit("transfer-encoding"))) is Some))
+    })
+}
+pub open spec fn c05_error(input: Seq<u8>, r: Result<Option<(usize, Response<()>)>, Error>) -> bool {
+    parse_response(input, MAX_RESPONSE_HEADERS as nat) is Err ==> r is Err
+}
+pub open spec fn c05_prefix(input: Seq<u8>, r: Result<Option<(usize, Response<()>)>, Error>) -> bool {
+    parse_response(input, MAX_RESPONSE_HEADERS as nat) matches Outcome::Partial(p) && !partial_redirect_hack(p) && (p.code matches Some(c) ==> c >= 100)
+        && (forall|i: int| 0 <= i < p.fields.len() ==> (#[trigger] p.fields[i]).name.len() < 65536) ==> r == Ok::<Option<(usize, Response<()>)>, Error>(None)
+}
 /// the state of the call after try_response returned `resp`
 pub open spec fn post_response<B>(pre: &Call<RecvResponse, B>, post: &Call<RecvResponse, B>, resp: &Response<()>) -> bool {
     &&& post.request == pre.request && post.analyzed == pre.analyzed && post.state.phase == pre.state.phase && post.state.writer == pre.state.writer
@@ -658,18 +676,11 @@ FN('try_response', props=['C05', 'C06', 'C11', 'C12', 'C01'], ret='r',
        ('aux.try_response.wf', 'final(self).wf()'),
        ('C12.no_state_change_on_error_or_need_more', '(r is Err || r == Ok::<Option<(usize, Response<()>)>, Error>(None)) ==> *final(self) == *old(self)'),
        ('C12.counts', 'r is Ok && r->Ok_0 is Some ==> r->Ok_0->Some_0.0 <= input.len()'),
-       ('C05.complete_head_exact', '''parse_response(input@, MAX_RESPONSE_HEADERS as nat) matches Outcome::Complete(n, p) ==> ({
-            let valid = p.version is Some && p.version->Some_0 <= 1 && p.code is Some && 100 <= p.code->Some_0 <= 999 && build_fields(p.fields, p.fields.len() as int) is Ok;
-            let hs = build_fields(p.fields, p.fields.len() as int)->Ok_0;
-            &&& (r is Ok ==> valid && r->Ok_0 is Some && r->Ok_0->Some_0.0 == n && response_is(r->Ok_0->Some_0.1, p, hs))
-            &&& (valid && p.code->Some_0 == 100 ==> (r is Ok <==> hs.len() == 0))
-            &&& (valid && p.code->Some_0 != 100 ==> (r is Ok <==> framing(old(self).request.request.spec_method(), p.code->Some_0, p.version->Some_0 == 0,
-                        text_first(hs, lit("content-length")), text_first(hs, lit("transfer-encoding"))) is Some))
-        })'''),
+       ('C05.complete_head_exact', 'c05_complete(old(self).request.request.spec_method(), input@, r)'),
+       ('C05.parser_error_is_an_error', 'c05_error(input@, r)'),
        ('C06.reader_set_by_the_rules', 'r is Ok && r->Ok_0 is Some ==> post_response(old(self), final(self), &r->Ok_0->Some_0.1)'),
        ('C05.need_more_data.not_redirect_with_location', 'parse_response(input@, MAX_RESPONSE_HEADERS as nat) matches Outcome::Partial(p) && !partial_redirect_hack(p) ==> (r is Err || r == Ok::<Option<(usize, Response<()>)>, Error>(None))'),
-       ('C05.need_more_data.well_formed_prefix_never_fails', '''parse_response(input@, MAX_RESPONSE_HEADERS as nat) matches Outcome::Partial(p) && !partial_redirect_hack(p) && (p.code matches Some(c) ==> c >= 100)
-            && (forall|i: int| 0 <= i < p.fields.len() ==> (#[trigger] p.fields[i]).name.len() < 65536) ==> r == Ok::<Option<(usize, Response<()>)>, Error>(None)'''),
+       ('C05.need_more_data.well_formed_prefix_never_fails', 'c05_prefix(input@, r)'),
        ('C05.need_more_data.redirect_with_location', 'parse_response(input@, MAX_RESPONSE_HEADERS as nat) matches Outcome::Partial(p) && partial_redirect_hack(p) ==> r == Ok::<Option<(usize, Response<()>)>, Error>(None)'),
        ('aux.try_response.partial_redirect_is_marked_close', '''parse_response(input@, MAX_RESPONSE_HEADERS as nat) matches Outcome::Partial(p) && partial_redirect_hack(p) && r is Ok ==>
             r->Ok_0 is Some && r->Ok_0->Some_0.0 == input.len() && crate::http::has_field(r->Ok_0->Some_0.1.spec_headers().entries(), lit("connection"), lit("close"))'''),
